@@ -141,7 +141,31 @@ def run(ctx):
         ctx.require(need in ps, f"find_constraint_satisfaction: parameter {need} missing")
     # ---- R1 ----------------------------------------------------------------
     adds = [c for c in A.calls(f.node) if A.call_attr(c) == "add_variable"]
-    ctx.require(len(adds) >= 5, "find_constraint_satisfaction: fewer than 5 add_variable calls")
+    # second idiom: a flag -> domain map filled by dict.fromkeys(<set>, <domain>) and successive .update(...) calls
+    # (later entries override earlier ones), declared in one loop over its items
+    table = []  # (set expression, domain), in program order
+    tname = None
+    for st in f.node.body:
+        mk = M.pat("$d = dict.fromkeys($$s, $$dom)").matches(st)
+        if mk is not None and tname is None:
+            tname = mk["d"]
+            table.append((mk["$s"], A.try_literal(mk["$dom"]), st))
+            continue
+        if tname is not None:
+            up = M.pat(f"{tname}.update(dict.fromkeys($$s, $$dom))").matches(st.value) if isinstance(st, ast.Expr) else None
+            if up is not None:
+                table.append((up["$s"], A.try_literal(up["$dom"]), st))
+    via_table = None
+    if tname is not None:
+        for c in adds:
+            loop = A.enclosing(c, ast.For)
+            if loop is not None and M.pat(f"{tname}.items()").matches(loop.iter) is not None and isinstance(loop.target, ast.Tuple) and len(loop.target.elts) == 2 \
+                    and len(c.args) == 2 and [A.unparse(a) for a in c.args] == [A.unparse(loop.target.elts[1]), A.unparse(loop.target.elts[0])]:
+                via_table = c
+    if via_table is not None:
+        ctx.require(all(isinstance(d, tuple) for _, d, _ in table), "find_constraint_satisfaction: a domain in the flag->domain map is not a literal tuple")
+        adds = [c for c in adds if c is not via_table]
+    ctx.require(len(adds) >= 5 or (via_table is not None and adds), "find_constraint_satisfaction: fewer than 5 add_variable calls")
     # missing_vars := variables - problem.variables.keys()  => flags not yet declared; after the four declarations
     # that is "not in IUSE" (every IUSE flag was declared) — encoded as an extra set
     se = SetEval(f)
@@ -181,7 +205,7 @@ def run(ctx):
             missing_calls.append((c, dom))
             continue
         declared.append((c, dom, expr))
-    ctx.require(len(declared) >= 4 and missing_calls, "find_constraint_satisfaction: declaration structure changed")
+    ctx.require((len(declared) >= 4 or via_table is not None) and missing_calls, "find_constraint_satisfaction: declaration structure changed")
     regions = [dict(zip(REGION_KEYS, bits)) for bits in itertools.product([False, True], repeat=4)]
     for region in regions:
         if region["force_true"] and region["force_false"]:
@@ -194,6 +218,16 @@ def run(ctx):
                     hits.append((c, dom))
             except ValueError as e:
                 ctx.require(False, f"find_constraint_satisfaction: cannot evaluate `{A.unparse(expr)[:60]}`: {e}")
+        if via_table is not None:
+            last = None
+            for sexpr, dom, st in table:
+                try:
+                    if se.member(sexpr, region):
+                        last = (st, dom)  # a later entry of the map replaces an earlier one
+                except ValueError as e:
+                    ctx.require(False, f"find_constraint_satisfaction: cannot evaluate `{A.unparse(sexpr)[:60]}`: {e}")
+            if last is not None:
+                hits.append(last)
         if not region["iuse"]:
             ctx.check("R1", f, not hits, f"outside-iuse:{label}",
                       f"flags outside IUSE ({label}) are not declared by the four up-front declarations (they later get (False,))",
